@@ -24,7 +24,7 @@ class _Linalg:
 
     @staticmethod
     def norm(v, *a, **k):
-        if isinstance(v, vecs.SV):
+        if isinstance(v, (vecs.SV, vecs.Concat)):
             return vecs.norm(v)
         if hasattr(v, "_vcx_norm"):
             return v._vcx_norm()
@@ -111,7 +111,7 @@ class NP:
 
     # ---- reductions over python lists of scalars ----------------------------------------------
     def min(self, x, **kw):
-        if isinstance(x, vecs.SV):
+        if isinstance(x, (vecs.SV, vecs.Concat)):
             return vecs.reduce_min(x, nanaware=False, **kw)
         if isinstance(x, (list, tuple)) and _anysym(x):
             f2 = py_min2 if all(isinstance(e, (SI, int)) and not isinstance(e, bool) for e in x) else np_min2
@@ -124,7 +124,7 @@ class NP:
         return _np.min(x, **kw)
 
     def max(self, x, **kw):
-        if isinstance(x, vecs.SV):
+        if isinstance(x, (vecs.SV, vecs.Concat)):
             return vecs.reduce_max(x, nanaware=False, **kw)
         if isinstance(x, (list, tuple)) and _anysym(x):
             f2 = py_max2 if all(isinstance(e, (SI, int)) and not isinstance(e, bool) for e in x) else np_max2
@@ -161,7 +161,7 @@ class NP:
         return _np.any(x, *a, **kw)
 
     def count_nonzero(self, x, *a, **kw):
-        if isinstance(x, vecs.SV):
+        if isinstance(x, (vecs.SV, vecs.Concat)):
             return vecs.count_nonzero(x)
         if x is None:
             return 0
